@@ -14,6 +14,12 @@ CLAIMS = {
    design_ref="DESIGN.md §4 C04",
    note="Trusted: Coq kernel incl. vm_compute; harness/c04.py dumper (live objects -> Gallina literals); ispec.decode used as accept predicate on both sides (its meaning is C03). setup() itself is not modelled: its output is validated per run.",
    technique="Coq proof of invariant=>equivalence + per-run kernel re-check of regenerated live trees + differential scan"),
+ "C03": dict(
+   category="proof",
+   text="Coq theorems about a Gallina model of ispec.buildspec/decode: positions assigned by the loop equal the documented MSB-first ('<', incl. '=' overlaps and a leading (*)) or LSB-first ('>') reading of the format for every well-formed directive list; mask/fix are characterised bit by bit (mask bit set iff a fixed bit/byte owns it, fix carries its value, fix within mask); decode accepts exactly the long-enough inputs whose fixed bits match, and every delivered integer/bit-vector consists of bits [sta,sto) of the fetched word whose bit k is bit k mod 8 of byte k/8. Regeneration tie: every live ispec (5137 on the pinned tree) is dumped each run and the kernel re-checks buildspec(ast)=live (size, mask, fix, extractor closures) and the well-formedness hypothesis. Search oracle: an independent bit-level interpreter of the documented meaning vs real ispec(...) with a recording hook on all live and synthetic formats x words x both endiannesses; model decode cross-checked by vm_compute.",
+   design_ref="DESIGN.md §4 C03",
+   note="Trusted: Coq kernel incl. vm_compute; harness/c03.py format tokenizer (pyparsing not modelled) and live-object dumper; crysp.bits exercised through the implementation.",
+   technique="Coq proofs over a buildspec/decode model + per-run kernel re-check of all live specs + independent-interpreter differential testing"),
 }
 NOT_YET = {}
 def main():
